@@ -32,11 +32,12 @@ fn fieldprio2_generator_order() -> (r: u32) ensures r == %(go)d { %(go)du32 }
 def unit():
     u = VUnit('vdaf_guards', 'constructor guards of Prio2 / Prio3')
     c = fp_consts(32)
+    u.oracle = {'inject': 'src/vdaf/prio2.rs', 'file': 'guards_oracle.rs', 'test': 'verif_oracle_guards::oracle_prio2_new'}
     u.raw(PRELUDE % dict(nr=c['NUM_ROOTS'], go=1 << c['NUM_ROOTS']), 'prelude')
     u.struct_item('src/vdaf/prio2.rs', ['pub struct Prio2'])
     u.item('src/vdaf/prio2.rs', ['impl Prio2', 'fn new'], ret='r', impl_header='impl Prio2',
            rewrites=[(r'u32::try_from\(', 'u32_try_from_usize(', 1), (r'FieldPrio2::generator_order\(\)', 'fieldprio2_generator_order()', 1),
-                     (r'"\.into\(\)', '".to_string()', 3)],
+                     (r'"\.into\(\)', '".to_string()', '*')],
            sig='''
 ensures
     // accepts exactly the lengths whose proof domain 2*next_pow2(input_len+1) fits the 2^20 subgroup; never overflows
